@@ -306,10 +306,12 @@ class _DeadCodeEliminate:
                 lhs = self.def_use.defs[phi.lhs]
                 rhs = self.def_use.defs[phi.rhs]
                 if (isinstance(lhs, AssignDef) and isinstance(lhs.site, Assign) and isinstance(lhs.site.target, Id)
-                        and _feeds_only_unused(lhs)):
+                        and _feeds_only_unused(lhs)
+                        and Purity.analyze_expr(lhs.site.expr, self.def_use)):
                     unused_assign.add(lhs.site)
                 if (isinstance(rhs, AssignDef) and isinstance(rhs.site, Assign) and isinstance(rhs.site.target, Id)
-                        and _feeds_only_unused(rhs)):
+                        and _feeds_only_unused(rhs)
+                        and Purity.analyze_expr(rhs.site.expr, self.def_use)):
                     unused_assign.add(rhs.site)
 
             # run code eliminator
